@@ -59,19 +59,21 @@ struct CalM {
 struct ParM {
     enum K { SCALAR, VECTOR, UNKNOWN, CORRELATED } kind = SCALAR;
     cd gamma;                        // SCALAR: supplied value
-    int n = 4;                       // number of grid points it covers (VECTOR: knots; UNKNOWN: of its guess)
-    std::vector<cd> g;               // VECTOR: supplied values at the knots GRID[0..n-1]
-    std::vector<cd> truth;           // value function at GRID[0..n-1] used by the scenarios (UNKNOWN: guess + delta)
+    int band = -1;                   // frequency band it is tied to (VECTOR: its knots; UNKNOWN/CORRELATED: through the chain or the sigma grid); -1: any
+    int n = 4;                       // number of points of that band it covers (VECTOR: knots)
+    std::vector<cd> g;               // VECTOR: supplied values at the knots bands[band][0..n-1]
+    std::vector<cd> truth;           // value function used by the scenarios, [band * 4 + k] (VECTOR: own band only; UNKNOWN: guess + delta;
+                                     // CORRELATED: the truth of its `other`, so that the correlation residual is zero at the truth)
     int other = -1;
-    int chain_n = 0;                 // knots of the VECTOR at the end of the guess/other chain (0: scalar)
-    bool solved = false, value_trusted = false; int solved_F = 0; double solved_tol = 0;
+    int chain_band = -1, chain_n = 0;   // band / knots of the VECTOR at the end of the guess/other chain (0: scalar)
+    bool solved = false, value_trusted = false; int solved_band = 0, solved_F = 0; double solved_tol = 0;   // the MOST RECENT successful solve
     int shadow = -1;                 // twin handle in the shadow vnacal_t (never deleted there)
     int uses = 0;                    // adds (into still existing vnacal_new_t) that referenced it
 };
-struct Std { int kind = 0; int h1 = 0, h2 = 0; std::vector<cd> v1, v2; bool unknown = false; };   // kind 0 reflect (1-port), 1 double reflect, 2 through
+struct Std { int kind = 0; int h1 = 0, h2 = 0; std::vector<cd> v1, v2; bool unknown = false; int also = -1; };   // also: unknown `other` of a correlated h1 (solved with it)   // kind 0 reflect (1-port), 1 double reflect, 2 through
 struct NewM {
     vnacal_new_t *vn = nullptr, *svn = nullptr;
-    int type = 0, ports = 1, F = 0; std::vector<double> f; cd z0;
+    int type = 0, ports = 1, band = 0, F = 0; std::vector<double> f; cd z0;   // f = bands[band][0..F-1]
     Box box;
     std::vector<Std> stds; std::set<int> handles;
     bool have_cal = false, trusted = false; double tol = TOL_LINEAR;   // a solved calibration waits in vn
@@ -85,7 +87,10 @@ struct H {
     ErrLog log, slog;
     vnacal_t *vc = nullptr, *sh = nullptr;
     PropGen g;
-    double grid[4];
+    // Three frequency bands of four points; every vnacal_new_t takes the first F points of ONE of them, so two
+    // calibrations sharing a handle differ in length, or have the same length with overlapping but different
+    // frequencies (bands 0 / 1), or the same length in a disjoint band (band 2).
+    double bands[3][4];
     std::map<int, CalM> cals;
     std::map<int, ParM> pars;
     std::set<int> dead;              // handles that were live once and are not now
@@ -111,15 +116,18 @@ struct H {
         if (z == cd(0, 0) || z == cd(1, 0) || z == cd(-1, 0)) z += cd(0.01, 0.02);
         return z;
     }
-    cd value_of(int h, int k) const {
+    cd value_of(int h, int band, int k) const {
         if (h == VNACAL_MATCH) return cd(0, 0);
         if (h == VNACAL_OPEN) return cd(1, 0);
         if (h == VNACAL_SHORT) return cd(-1, 0);
         const ParM &p = pars.at(h);
         if (p.kind == ParM::SCALAR) return p.gamma;
-        return p.truth.at(k);
+        return p.truth.at(band * 4 + k);
     }
     int cover_of(int h) const { return h < 3 ? 4 : pars.at(h).n; }
+    int band_of(int h) const { return h < 3 ? -1 : pars.at(h).band; }
+    // may the handle stand in a calibration on this band with F points?  (values are only ever needed at knots)
+    bool usable(int h, int band, int F) const { return h < 3 || ((pars.at(h).band == -1 || pars.at(h).band == band) && pars.at(h).n >= F); }
     int twin_of(int h) const { return h < 3 ? h : pars.at(h).shadow; }
     std::string hs(int h) const {
         if (h < 3) return h == 0 ? "MATCH" : h == 1 ? "OPEN" : "SHORT";
@@ -220,7 +228,7 @@ struct H {
         static const double pre[3] = {0.0, 1.0, -1.0};
         for (int h = 0; h < 3; h++) {
             log.clear();
-            dcx v = vnacal_get_parameter_value(vc, h, grid[0]);
+            dcx v = vnacal_get_parameter_value(vc, h, bands[0][0]);
             PBT_CHECK(c, re_(v) == pre[h] && im_(v) == 0.0, "C16.predefined_handle", "step %d (%s): value of predefined handle %d = %g%+gj, expected %g", step, what, h, re_(v), im_(v), pre[h]);
         }
         int top = pars.empty() ? 3 : pars.rbegin()->first + 1;
@@ -230,34 +238,44 @@ struct H {
             auto it = pars.find(h);
             log.clear();
             if (it == pars.end()) {
-                dcx v = vnacal_get_parameter_value(vc, h, grid[0]);
+                dcx v = vnacal_get_parameter_value(vc, h, bands[0][0]);
                 PBT_CHECK(c, re_(v) == HUGE_VAL, "C16.dead_handle_has_value", "step %d (%s): vnacal_get_parameter_value(%d) of a handle that is not live returned %g%+gj", step, what, h, re_(v), im_(v));
                 continue;
             }
             const ParM &p = it->second;
             switch (p.kind) {
             case ParM::SCALAR: {
-                dcx v = vnacal_get_parameter_value(vc, h, grid[(size_t)step % 4]);
+                dcx v = vnacal_get_parameter_value(vc, h, bands[(size_t)step % 3][(size_t)step % 4]);
                 PBT_CHECK(c, same_bits(v, mkc(p.gamma)), "C16.scalar_value", "step %d (%s): scalar h%d = %.17g%+.17gj, supplied %.17g%+.17gj", step, what, h, re_(v), im_(v), p.gamma.real(), p.gamma.imag());
                 break;
             }
             case ParM::VECTOR:
                 for (int k = 0; k < p.n; k++) {
-                    dcx v = vnacal_get_parameter_value(vc, h, grid[k]);
+                    dcx v = vnacal_get_parameter_value(vc, h, bands[p.band][k]);
                     PBT_CHECK(c, same_bits(v, mkc(p.g[k])), "C16.vector_value_at_knot", "step %d (%s): vector h%d at knot %d = %.17g%+.17gj, supplied %.17g%+.17gj", step, what, h, k, re_(v), im_(v), p.g[k].real(), p.g[k].imag());
                 }
                 break;
             default:
                 if (p.solved && !p.value_trusted) break;      // written by a solve whose outcome is not asserted
                 if (!p.solved) {
-                    dcx v = vnacal_get_parameter_value(vc, h, grid[0]);
+                    dcx v = vnacal_get_parameter_value(vc, h, bands[0][0]);
                     PBT_CHECK(c, re_(v) == HUGE_VAL, "C16.unsolved_has_value", "step %d (%s): unknown/correlated h%d was never solved but has value %g%+gj (vnacal_parameter(3): fails if not solved)", step, what, h, re_(v), im_(v));
                 } else {
+                    // the value is the one of the MOST RECENT solve, on that solve's frequencies
+                    const double *sf = bands[p.solved_band];
                     for (int k = 0; k < p.solved_F; k++) {
-                        dcx v = vnacal_get_parameter_value(vc, h, grid[k]);
-                        double e = std::abs(tocd(v) - p.truth[k]);
+                        log.clear();
+                        dcx v = vnacal_get_parameter_value(vc, h, sf[k]);
+                        cd t = p.truth[p.solved_band * 4 + k];
+                        PBT_CHECK(c, re_(v) != HUGE_VAL, "C16.solved_value", "step %d (%s): %s h%d was last solved on band %d (%d points) but vnacal_get_parameter_value at its f[%d] = %g fails: %s", step, what, p.kind == ParM::UNKNOWN ? "unknown" : "correlated", h, p.solved_band, p.solved_F, k, sf[k], log.text().c_str());
+                        double e = std::abs(tocd(v) - t);
                         c.track_max("unknown_param_err/tol", e / p.solved_tol);
-                        PBT_CHECK(c, e <= p.solved_tol, "C16.solved_value", "step %d (%s): solved unknown h%d at f[%d] = %.9g%+.9gj, truth %.9g%+.9gj (error %.3g)", step, what, h, k, re_(v), im_(v), p.truth[k].real(), p.truth[k].imag(), e);
+                        PBT_CHECK(c, e <= p.solved_tol, "C16.solved_value", "step %d (%s): %s h%d (last solved on band %d, %d points) at f[%d] = %g: %.9g%+.9gj, truth %.9g%+.9gj (error %.3g)", step, what, p.kind == ParM::UNKNOWN ? "unknown" : "correlated", h, p.solved_band, p.solved_F, k, sf[k], re_(v), im_(v), t.real(), t.imag(), e);
+                    }
+                    // ... and only there: well outside of that grid the value is refused
+                    for (double f : {0.5 * sf[0], 1.5 * sf[p.solved_F - 1]}) {
+                        dcx v = vnacal_get_parameter_value(vc, h, f);
+                        PBT_CHECK(c, re_(v) == HUGE_VAL, "C16.solved_value_out_of_range", "step %d (%s): h%d was last solved on %g..%g but vnacal_get_parameter_value(%g) returns %g%+gj", step, what, h, sf[0], sf[p.solved_F - 1], f, re_(v), im_(v));
                     }
                 }
                 break;
@@ -292,15 +310,17 @@ struct H {
     }
     void op_make_vector() {
         int n = (int)c.range(1, 4);
-        ParM p; p.kind = ParM::VECTOR; p.n = n; p.chain_n = n;
+        int b = (int)c.draw(3);
+        ParM p; p.kind = ParM::VECTOR; p.n = n; p.band = b; p.chain_n = n; p.chain_band = b;
         cd base = gen_gamma();
         for (int k = 0; k < n; k++) p.g.push_back(base + gen_small(0.05));
-        p.truth = p.g;
+        p.truth.assign(12, cd(NAN, NAN));
+        for (int k = 0; k < n; k++) p.truth[b * 4 + k] = p.g[k];
         std::vector<dcx> gv; for (auto &z : p.g) gv.push_back(mkc(z));
         log.clear();
-        int h = vnacal_make_vector_parameter(vc, grid, n, gv.data());
-        p.shadow = vnacal_make_vector_parameter(sh, grid, n, gv.data());
-        c.note("make_vector(%d knots, base %.4g%+.4gj) -> h%d", n, base.real(), base.imag(), h);
+        int h = vnacal_make_vector_parameter(vc, bands[b], n, gv.data());
+        p.shadow = vnacal_make_vector_parameter(sh, bands[b], n, gv.data());
+        c.note("make_vector(%d knots on band %d, base %.4g%+.4gj) -> h%d", n, b, base.real(), base.imag(), h);
         made(h, p, "vnacal_make_vector_parameter");
     }
     // a live handle by kinds; -1 if none
@@ -332,8 +352,11 @@ struct H {
             return;
         }
         int other = pick_handle(true, true, true, false, false);
-        ParM p; p.kind = ParM::UNKNOWN; p.other = other; p.n = cover_of(other); p.chain_n = other < 3 ? 0 : pars.at(other).chain_n;
-        for (int k = 0; k < p.n; k++) p.truth.push_back(value_of(other, k) + gen_small(0.04));
+        ParM p; p.kind = ParM::UNKNOWN; p.other = other; p.n = cover_of(other); p.band = band_of(other);
+        p.chain_n = other < 3 ? 0 : pars.at(other).chain_n; p.chain_band = other < 3 ? -1 : pars.at(other).chain_band;
+        // the actual standard behind the unknown: near the guess, a different value at every frequency of every band
+        p.truth.assign(12, cd(NAN, NAN));
+        for (int b = 0; b < 3; b++) for (int k = 0; k < 4; k++) if (usable(other, b, k + 1)) p.truth[b * 4 + k] = value_of(other, b, k) + gen_small(0.04);
         log.clear();
         int h = vnacal_make_unknown_parameter(vc, other);
         p.shadow = vnacal_make_unknown_parameter(sh, twin_of(other));
@@ -342,16 +365,24 @@ struct H {
     }
     void op_make_correlated() {
         int other = pick_handle(true, true, true, true, false);
-        ParM p; p.kind = ParM::CORRELATED; p.other = other; p.n = cover_of(other);
+        ParM p; p.kind = ParM::CORRELATED; p.other = other; p.n = cover_of(other); p.band = band_of(other);
         // sigma grid: one frequency-independent value, an explicit grid, or (vector at the end of the chain) the NULL grid
-        p.chain_n = other < 3 ? 0 : pars.at(other).chain_n;
+        p.chain_n = other < 3 ? 0 : pars.at(other).chain_n; p.chain_band = other < 3 ? -1 : pars.at(other).chain_band;
         int form = c.weighted({3, 3, p.chain_n >= 2 ? 3u : 0u});
         double sig[4]; for (int k = 0; k < 4; k++) sig[k] = c.real(0.001, 0.1);
         log.clear();
-        int h;
-        if (form == 0) { h = vnacal_make_correlated_parameter(vc, other, nullptr, 1, sig); c.note("make_correlated(other %s, 1 sigma) -> h%d", hs(other).c_str(), h); }
-        else if (form == 1) { int n = (int)c.range(3, 4); h = vnacal_make_correlated_parameter(vc, other, grid, n, sig); c.note("make_correlated(other %s, %d sigma frequencies) -> h%d", hs(other).c_str(), n, h); }
-        else { int n = p.chain_n; h = vnacal_make_correlated_parameter(vc, other, nullptr, n, sig); c.note("make_correlated(other %s, NULL grid: the %d knots of the vector at the end of the chain) -> h%d", hs(other).c_str(), n, h); c.label("correlated-null-grid"); }
+        int h, s;
+        if (form == 0) { h = vnacal_make_correlated_parameter(vc, other, nullptr, 1, sig); s = vnacal_make_correlated_parameter(sh, twin_of(other), nullptr, 1, sig); c.note("make_correlated(other %s, 1 sigma) -> h%d", hs(other).c_str(), h); }
+        else if (form == 1) {      // explicit sigma grid: on the band of the chain's vector (must overlap it), else on any band; it limits where the parameter may be used
+            int n = (int)c.range(3, 4), b = p.chain_band >= 0 ? p.chain_band : (int)c.draw(3);
+            h = vnacal_make_correlated_parameter(vc, other, bands[b], n, sig); s = vnacal_make_correlated_parameter(sh, twin_of(other), bands[b], n, sig);
+            p.band = b; p.n = std::min(p.n, n);
+            c.note("make_correlated(other %s, %d sigma frequencies on band %d) -> h%d", hs(other).c_str(), n, b, h);
+        } else { int n = p.chain_n; h = vnacal_make_correlated_parameter(vc, other, nullptr, n, sig); s = vnacal_make_correlated_parameter(sh, twin_of(other), nullptr, n, sig); p.band = p.chain_band; p.n = std::min(p.n, n); c.note("make_correlated(other %s, NULL grid: the %d knots of the vector at the end of the chain) -> h%d", hs(other).c_str(), n, h); c.label("correlated-null-grid"); }
+        p.shadow = s;
+        // the standard behind a correlated parameter is the very standard behind its `other`: zero correlation residual at the truth
+        p.truth.assign(12, cd(NAN, NAN));
+        for (int b = 0; b < 3; b++) for (int k = 0; k < 4; k++) if (usable(other, b, k + 1)) p.truth[b * 4 + k] = value_of(other, b, k);
         made(h, p, "vnacal_make_correlated_parameter");
     }
     void op_delete_parameter() {
@@ -390,7 +421,7 @@ struct H {
         int h = pick_handle(false, false, true, false, false);
         if (h < 0) return;
         const ParM &p = pars.at(h);
-        double lo = grid[0], hi = grid[p.n - 1];
+        double lo = bands[p.band][0], hi = bands[p.band][p.n - 1];
         int where = (int)c.draw(3);
         double f = where == 0 ? lo * 0.5 : where == 1 ? hi * 1.5 : lo + (hi - lo) * c.unit();
         c.note("get_parameter_value(h%d, %s)", h, where == 0 ? "below range" : where == 1 ? "above range" : "inside range");
@@ -410,7 +441,8 @@ struct H {
         n.ports = c.chance(1, 4) ? 2 : 1;
         n.type = n.ports == 1 ? TYPES1[c.draw(8)] : TYPES2[c.draw(6)];
         n.F = (int)c.range(1, 3);
-        n.f.assign(grid, grid + n.F);
+        n.band = (int)c.draw(3);
+        n.f.assign(bands[n.band], bands[n.band] + n.F);
         n.z0 = c.boolean() ? cd(50, 0) : cd(c.real(10, 200), c.real(-50, 50));
         n.box.ports = n.ports; n.box.F = n.F;
         for (int p = 0; p < n.ports; p++) for (int k = 0; k < n.F; k++) {
@@ -418,7 +450,7 @@ struct H {
             n.box.er[p].push_back(std::polar(c.real(0.7, 1.2), c.real(0, 6.283185307179586)));
             n.box.et[p].push_back(n.ports == 1 ? cd(1, 0) : std::polar(c.real(0.8, 1.1), c.real(0, 6.283185307179586)));
         }
-        c.note("new_alloc(slot %d: %s %dx%d, %d frequencies, z0 %.4g%+.4gj)", s, TYPE_NAMES[n.type], n.ports, n.ports, n.F, n.z0.real(), n.z0.imag());
+        c.note("new_alloc(slot %d: %s %dx%d, %d frequencies of band %d, z0 %.4g%+.4gj)", s, TYPE_NAMES[n.type], n.ports, n.ports, n.F, n.band, n.z0.real(), n.z0.imag());
         log.clear();
         n.vn = vnacal_new_alloc(vc, (vnacal_type_t)n.type, n.ports, n.ports, n.F);
         PBT_CHECK(c, n.vn != nullptr, "C16.new_alloc_failed", "step %d: vnacal_new_alloc failed: %s", step, log.text().c_str());
@@ -445,12 +477,16 @@ struct H {
     // which standard the slot still lacks: prefer completing a determining set
     int pick_std_handle(const NewM &n, bool allow_unknown) {
         // usable: covers the calibration's frequencies; known kinds (+ unknown on 1-port)
-        std::vector<int> v = {2, 1, 0};
+        std::vector<int> v = {2, 1, 0}, shared;
         for (auto &kv : pars) {
             const ParM &p = kv.second;
-            if (p.n < n.F) continue;
-            if (p.kind == ParM::SCALAR || p.kind == ParM::VECTOR || (p.kind == ParM::UNKNOWN && allow_unknown)) v.push_back(kv.first);
+            if (!usable(kv.first, n.band, n.F)) continue;
+            if (p.kind == ParM::SCALAR || p.kind == ParM::VECTOR) v.push_back(kv.first);
+            // a correlated parameter brings its `other` into the calibration: that handle must still be live
+            else if (allow_unknown && (p.kind == ParM::UNKNOWN || (p.kind == ParM::CORRELATED && (p.other < 3 || pars.count(p.other))))) { v.push_back(kv.first); shared.push_back(kv.first); }
         }
+        // unknown / correlated handles are shared between the vnacal_new_t: the same handle gets solved again and again, on other grids
+        if (!shared.empty() && c.chance(1, 4)) return shared[c.draw(shared.size())];
         if (c.chance(3, 5)) {   // next of short/open/match not yet present
             for (int h : {2, 1, 0}) { bool have = false; for (auto &s : n.stds) if (s.kind != 2 && (s.h1 == h)) have = true; if (!have) return h; }
         }
@@ -467,8 +503,9 @@ struct H {
         log.clear();
         if (n.ports == 1) {
             st.kind = 0; st.h1 = pick_std_handle(n, true);
-            st.unknown = st.h1 >= 3 && pars.at(st.h1).kind == ParM::UNKNOWN;
-            for (int k = 0; k < n.F; k++) { st.v1.push_back(value_of(st.h1, k)); cells[0][k] = mkc(n.box.refl(0, k, st.v1[k])); }
+            st.unknown = st.h1 >= 3 && (pars.at(st.h1).kind == ParM::UNKNOWN || pars.at(st.h1).kind == ParM::CORRELATED);
+            if (st.h1 >= 3 && pars.at(st.h1).kind == ParM::CORRELATED) { int o = pars.at(st.h1).other; if (o >= 3 && pars.at(o).kind == ParM::UNKNOWN) st.also = o; c.label("correlated-in-calibration"); }
+            for (int k = 0; k < n.F; k++) { st.v1.push_back(value_of(st.h1, n.band, k)); cells[0][k] = mkc(n.box.refl(0, k, st.v1[k])); }
             dcx *ptr[1] = {cells[0].data()};
             c.note("add_single_reflect_m(slot %d, %s)", s, hs(st.h1).c_str());
             rc = vnacal_new_add_single_reflect_m(n.vn, ptr, 1, 1, st.h1, 1);
@@ -487,7 +524,7 @@ struct H {
             } else {
                 st.kind = 1; st.h1 = pick_std_handle(n, false); st.h2 = c.chance(2, 3) ? st.h1 : pick_std_handle(n, false);
                 for (int k = 0; k < n.F; k++) {
-                    st.v1.push_back(value_of(st.h1, k)); st.v2.push_back(value_of(st.h2, k));
+                    st.v1.push_back(value_of(st.h1, n.band, k)); st.v2.push_back(value_of(st.h2, n.band, k));
                     cd S[4] = {st.v1[k], 0, 0, st.v2[k]}, M[4]; n.box.meas2(k, S, M); for (int q = 0; q < 4; q++) cells[q][k] = mkc(M[q]);
                 }
                 c.note("add_double_reflect_m(slot %d, %s, %s)", s, hs(st.h1).c_str(), hs(st.h2).c_str());
@@ -497,7 +534,7 @@ struct H {
         }
         PBT_CHECK(c, rc == 0, "C16.add_failed", "step %d: vnacal_new_add_* with live handles failed: %s", step, log.text().c_str());
         PBT_CHECK(c, src == 0, "C16.harness", "shadow add failed: %s", slog.text().c_str());
-        std::vector<int> used; if (st.kind == 0) used = {st.h1}; else if (st.kind == 1) used = {st.h1, st.h2};
+        std::vector<int> used; if (st.kind == 0) used = {st.h1, st.also}; else if (st.kind == 1) used = {st.h1, st.h2};
         for (int h : used) if (h >= 3 && n.handles.insert(h).second) pars.at(h).uses++;
         n.stds.push_back(st);
     }
@@ -520,7 +557,7 @@ struct H {
         NewM &n = nw[s];
         bool det = determined(n);
         if (!det && !c.chance(1, 6)) { op_add_std(s); return; }     // mostly solve determined systems; sometimes a premature one
-        std::set<int> unk; for (auto &st : n.stds) if (st.unknown) unk.insert(st.h1);
+        std::set<int> unk; for (auto &st : n.stds) if (st.unknown) { unk.insert(st.h1); if (st.also >= 0) unk.insert(st.also); }
         c.note("solve(slot %d)%s%s", s, det ? "" : "  [not yet determined: outcome not asserted]", unk.empty() ? "" : "  [with unknown parameters]");
         log.clear(); slog.clear();
         int rc = vnacal_new_solve(n.vn);
@@ -529,7 +566,7 @@ struct H {
         if (det) PBT_CHECK(c, rc == 0, "C16.solve_failed", "step %d: vnacal_new_solve failed on a determined, well-conditioned standard set: %s", step, log.text().c_str());
         if (rc == 0) {
             n.have_cal = true; n.ever_solved = true; n.trusted = det; n.tol = unk.empty() ? TOL_LINEAR : TOL_ITER;
-            for (int h : unk) { auto it = pars.find(h); if (it != pars.end()) { it->second.solved = true; it->second.value_trusted = det; it->second.solved_F = n.F; it->second.solved_tol = TOL_ITER; } }
+            for (int h : unk) { auto it = pars.find(h); if (it != pars.end()) { if (it->second.solved && (it->second.solved_band != n.band || it->second.solved_F != n.F)) c.label(it->second.solved_F != n.F ? "handle-re-solved:other-length" : n.band + it->second.solved_band == 1 ? "handle-re-solved:same-length-overlapping-grid" : "handle-re-solved:same-length-disjoint-band"); it->second.solved = true; it->second.value_trusted = det; it->second.solved_band = n.band; it->second.solved_F = n.F; it->second.solved_tol = TOL_ITER; } }
             if (!unk.empty()) c.label("solved-with-unknown");
         }
         if (!det) c.label("premature-solve");
@@ -661,7 +698,7 @@ struct H {
     // -------------------------------------------------------------------- run
     void run() {
         double fb = c.real(1e5, 1e9);
-        for (int k = 0; k < 4; k++) grid[k] = fb * (k + 1);
+        for (int k = 0; k < 4; k++) { bands[0][k] = fb * (k + 1); bands[1][k] = fb * (k + 1) * 1.37; bands[2][k] = fb * 10 * (k + 1); }
         vc = vnacal_create(errlog_fn, &log);
         sh = vnacal_create(errlog_fn, &slog);
         PBT_CHECK(c, vc && sh, "C16.create_failed", "vnacal_create failed");
